@@ -78,7 +78,7 @@ def step (st : St) (n : Nat) (ln : Line) : St × List String :=
     let e := grpcCreate kind (tokNat (a.getD 3 "")) gen (tokBytes (a.getD 4 "-"))
     let st' := { st with opNo := gen, model := put st.model key (some e), impl := put st.impl key (parseDump o) }
     (st', diff n ln (dumpToks (some e)) ++ [s!"COV grpc.{a.getD 2 ""}"])
-  | "put" | "post" | "postd" | "postraw" =>
+  | "put" | "post" | "postd" | "postraw" | "putnet" =>
     let etc := a.getD 0 "" == "etc"
     let key := a.getD 0 "" ++ "/" ++ a.getD 1 ""
     let isAppend := a.getD 2 "0" == "1"
@@ -86,7 +86,7 @@ def step (st : St) (n : Nat) (ln : Line) : St × List String :=
     let failAt : Option Nat := if a.getD 4 "-1" == "-1" then none else some (tokNat (a.getD 4 ""))
     let body := tokBytes (a.getD 5 "-")
     let avail := match failAt with | none => body | some k => body.take k
-    let m : Method := if ln.op == "put" then .put else if ln.op == "postraw" then .postRaw else .postMultipart
+    let m : Method := if ln.op == "put" ∨ ln.op == "putnet" then .put else if ln.op == "postraw" then .postRaw else .postMultipart
     let gen := st.opNo + 1
     let existing := st.model.lookup key
     let (status, e') := handle existing m isAppend cs st.limit etc gen avail failAt.isSome
@@ -106,6 +106,8 @@ def step (st : St) (n : Nat) (ln : Line) : St × List String :=
                      (if p.content = [] ∧ extent p.chunks < p.fileSize then ["COV append.attr-above-extent"] else []))
        else []) ++
       (if ln.op == "postd" then ["COV post.to-directory"] else []) ++
+      (if ln.op == "putnet" then ["COV put.real-connection"] else []) ++
+      (if ln.op == "putnet" ∧ failAt.isSome then ["COV put.real-connection-cut"] else []) ++
       (if m != .postRaw ∧ !isAppend ∧ existing.isSome then ["COV write.overwrite"] else [])
     let st' := { st with opNo := gen, model := put st.model key e', impl := put st.impl key inow }
     (st', diff n ln (toString status :: dumpToks e') ++ judgeOut n j (s!"{ln.op} {a.take 5}") ++ cov)
